@@ -365,4 +365,29 @@ def for_property(prop, tier, seed=0):
         if s['name'] not in seen:
             seen.add(s['name'])
             out.append(s)
+    if quick and len(out) > QUICK_CAP:
+        # the quick tier keeps a fixed core (spread over the sub-families) and rotates the remainder with the seed
+        spread = spread_order(out)
+        core, rest = spread[:QUICK_CAP - 4], spread[QUICK_CAP - 4:]
+        rnd = random.Random(seed)
+        rnd.shuffle(rest)
+        out = core + rest[:4]
+    return out
+
+
+QUICK_CAP = 24
+
+
+def spread_order(scenarios):
+    """Orders scenarios so that every prefix is spread over the name stems (S_S, SD_DT, FDaw_Fire, ...) and pool sizes"""
+    groups = {}
+    for s in scenarios:
+        stem = s['name'].rsplit('_p', 1)[0]
+        groups.setdefault(stem, []).append(s)
+    out, level = [], 0
+    while any(len(g) > level for g in groups.values()):
+        for stem in groups:
+            if len(groups[stem]) > level:
+                out.append(groups[stem][level])
+        level += 1
     return out
